@@ -479,7 +479,10 @@ func c18(r *mon.Run) {
 			goDoc := docs.StructDoc(gen.DeriveN(r.Seed, "c18mixdoc", i%9), form)
 			c18Equiv(r, t, "mixed-multi-selects-flattened", i, tree, goDoc, lower, false)
 		}}
-	zsl := [][3]string{{"", "", "0"}, {"1", "2", "0"}, {"0", "", "0"}, {"", "0", "0"}, {"", "", "1"}, {"5", "", "-1"}}
+	zsl := [][3]string{{"", "", "0"}, {"1", "2", "0"}, {"0", "", "0"}, {"", "0", "0"}, {"", "", "1"}, {"5", "", "-1"},
+		// steps and bounds at the edges of the integer formats (the typed-slice walk is a loop of its own)
+		{"1", "", "9223372036854775807"}, {"", "", "9223372036854775807"}, {"2", "", "9223372036854775806"}, {"-1", "", "-9223372036854775808"}, {"", "", "-9223372036854775807"}, {"1", "", "2147483647"}, {"-9223372036854775808", "9223372036854775807", "1"},
+		{"9223372036854775807", "-9223372036854775808", "-1"}, {"1", "", "128"}, {"", "128", ""}, {"", "", "-2"}, {"", "", "-3"}, {"-1", "0", "-2"}, {"4", "1", "-2"}}
 	nzs := len(slicePaths) * len(zsl) * 4 * 8
 	zsw := mon.Workload{Name: "zero-and-other-steps-on-typed-slices", N: nzs,
 		Do: func(i int, t *mon.Tally) {
@@ -615,6 +618,58 @@ func c18(r *mon.Run) {
 			}
 			t.Nontrivial("anon:" + expr)
 			t.Count("anonymous / local struct type cases agreeing with the JSON form")
+		}}
+	// unexported twins: a struct that has an unexported field spelled like an exported one in lower case (`name` next to `Name`):
+	// the identifier `name` means the exported field (first letter upper-cased), the unexported one is not part of the document
+	type twinItem struct {
+		id   float64
+		ID   float64
+		tags []string
+		Tags []string
+	}
+	type twin struct {
+		name  string
+		Name  string
+		count float64
+		Count float64
+		items []twinItem
+		Items []twinItem
+		P     *twinItem
+		p     *twinItem
+	}
+	mkTwin := func() interface{} {
+		return &twin{name: "hidden", Name: "Savings", count: -1, Count: 3, items: []twinItem{{id: -1}}, Items: []twinItem{{id: -1, ID: 7, tags: []string{"h"}, Tags: []string{"x", "y"}}, {ID: 8}}, P: &twinItem{id: -2, ID: 9}, p: &twinItem{ID: -9}}
+	}
+	twinExprs := []string{"name", "Name", "count", "Count", "name || 'none'", "[name, count]", "items[*].id", "Items[*].ID", "items[0].tags", "items[*].tags[]", "p.id", "P.ID", "{n: name, c: count}", "items[?id > `7`].id", "length(items)", "keys(@)", "@.name", "items[].id | [0]", "p.tags", "[p, items[0]][*].id"}
+	twinw := mon.Workload{Name: "unexported-twins-of-exported-fields", N: len(twinExprs) * 2,
+		Do: func(i int, t *mon.Tally) {
+			expr := twinExprs[i/2]
+			lower := expr[0] >= 'a' && expr[0] <= 'z' || expr[0] == '[' || expr[0] == '{' || expr[0] == '@'
+			if strings.ContainsAny(expr[:1], "NCIP") {
+				lower = false
+			}
+			gform := docs.ToGeneric(mkTwin(), lower)
+			t.Eval()
+			want := apiSearch(expr, gform)
+			o := apiSearch(expr, mkTwin())
+			if i%2 == 1 {
+				o = apiCompiledSearch(expr, mkTwin())
+			}
+			if strings.HasPrefix(expr, "keys") {
+				if o.Panicked {
+					r.Violate(&mon.Violation{Workload: "unexported-twins-of-exported-fields", Index: i, API: "Search", Expr: expr, Expected: "no panic", Observed: o.String(), Class: "unexported twins: panic"})
+				}
+				return
+			}
+			if !o.Panicked && o.Err == nil {
+				o.V = docs.ToGeneric(o.V, lower)
+			}
+			if o.Panicked || (o.Err == nil) != (want.Err == nil) || (o.Err == nil && !mon.JSONEqual(o.V, want.V)) {
+				r.Violate(&mon.Violation{Workload: "unexported-twins-of-exported-fields", Index: i, API: []string{"Search", "Compile+Search"}[i%2], Expr: expr, Doc: gform,
+					DocDesc: "a struct with unexported fields name / count / items / p next to exported Name / Count / Items / P", Expected: want.String() + " (the answer on the generic form, which holds the exported fields only)", Observed: o.String(), Class: "unexported twin of an exported field"})
+				return
+			}
+			t.Nontrivial("twin:" + expr)
 		}}
 	// Go zero values: nil typed slices, nil maps, nil interfaces, zero structs, empty non-nil slices, pointers to
 	// empty structs, nil pointers to slices - under every function and every navigational form: no panic
@@ -776,7 +831,7 @@ func c18(r *mon.Run) {
 			}
 			c18EquivExpr(r, t, "functions-then-navigation-on-typed-slices", i, form(fn(path), path), goDoc, false, false)
 		}}
-	r.Exec(eq, paths, oddw, ffw, fiw, nrw, mixw, zsw, emb, anon, zvw, rw, safety, hostile, fnav)
+	r.Exec(eq, paths, oddw, ffw, fiw, nrw, mixw, zsw, emb, anon, zvw, rw, safety, hostile, fnav, twinw)
 }
 
 func pickKey(operand string) string {
